@@ -75,7 +75,7 @@ def check_kem_deps(rep, facts, rule='R07.1'):
                       ('param', 3): 'skE (-> enc)' if side == 'encap' else 'enc', ('param', 2): 'the sender identity key'}
                 has_dh = any(x[0] == 'method' or x == ('op', 'dh') for x in d) or ('op', 'dh') in d
                 for x in need:
-                    ok = (x in d) if x != ('op', 'dh') else (('op', 'dh') in d or ('op', 'map_err') in d)
+                    ok = x in d
                     rep.check(ok, rule, a.body.key, '%s:%s<-%s' % (side, br, nm[x]), 'shared secret depends on %s: %s' % (nm[x], ok),
                               'the shared secret is bound to %s' % nm[x], where(a, p))
     return n
